@@ -70,7 +70,10 @@ pub fn judge(item: &Item, obs: &Obs, seq: Option<&Result<hcore::visit::TermResul
     let mut vs = Vec::new();
     if let (Err(msg), None) = (&obs.result, item.case.fault) {
         // collects of zero-sized items are keyed by builder type and terminal (known finding F9 lists two sites)
-        let key = if item.case.term.is_zst() { format!("zst-panic:{}.{}", hcore::chaintab::INFO[item.case.chain].0, item.case.term.name()) } else { "panic".to_string() };
+        let key = if item.case.src == hcore::case::Src::PRangeMax {
+            // the range 1..usize::MAX as a source has its own key (known finding F10)
+            "panic:range-end-usize-max".to_string()
+        } else if item.case.term.is_zst() { format!("zst-panic:{}.{}:{}", hcore::chaintab::INFO[item.case.chain].0, item.case.term.name(), if item.case.src.known_len(item.case.known) { "known-len" } else { "unknown-len" }) } else { "panic".to_string() };
         vs.push(Viol { key, what: format!("terminal panicked without an injected fault: {}", msg) });
         return vs;
     }
@@ -192,7 +195,12 @@ pub fn fatal_handler(f: Fatal, rec: ExecRecord) -> ! {
         .s("prop", &cur.0)
         .s("case", &cur.1)
         .s("plan", &cur.2)
-        .s("key", if f == Fatal::Horizon { "nontermination" } else { "deadlock" })
+        .s("key", match f {
+            // the range 1..usize::MAX as a source has its own key (known finding F10: the dependency's position counter wraps)
+            Fatal::Horizon if cur.1.starts_with("src=prangemax;") => "nontermination:range-end-usize-max",
+            Fatal::Horizon => "nontermination",
+            _ => "deadlock",
+        })
         .s("what", kind)
         .s("schedule", &schedule_str(&rec.choices()))
         .raw("log", &arr(&fmt_log(&rec).iter().rev().take(60).rev().map(|x| esc(x)).collect::<Vec<_>>()))
